@@ -39,7 +39,7 @@ Expected(e) ==
                                  tq == FDiv(FI(j), FI(e.t[2]))
                                  dir == MatVec(Rodrigues(cs[1], cs[2], e.axis), VScale(e.from, FInv(e.fl)))
                              IN VScale(dir, LerpFast(e.fl, FMul(e.fl, e.mu), tq))
-AxiomOps == {"v_mag", "v_norm", "v_angle", "v_angle_f"}
+AxiomOps == {"v_mag", "v_norm", "v_angle", "v_angle_f", "v_side_i"}
 PI16 == 205887      \* round(pi * 2^16)
 Axioms(e) ==
     CASE e.op = "v_mag" -> IsRootOf(e.obs, Norm2(e.a))
@@ -58,6 +58,13 @@ Axioms(e) ==
       \* floats: the angle between e1 and the direction at `eighths` * 45 degrees, whatever the common length of the two
       \* vectors (plain integers: round(angle * 2^16), -1 = not finite)
       [] e.op = "v_angle_f" -> e.obs >= 0 /\ e.obs - (e.eighths * PI16) \div 4 \in -64 .. 64
+      \* integer element types (plain integers): the side test is the exact 2D cross product; the areas are half of it - exact
+      \* whenever that half is an integer (halving the two products separately loses it), within one half otherwise
+      [] e.op = "v_side_i" -> LET tw == (e.b[1] - e.a[1]) * (e.c[2] - e.a[2]) - (e.b[2] - e.a[2]) * (e.c[1] - e.a[1])
+                                  at == IF tw < 0 THEN 0 - tw ELSE tw IN
+                              (CASE e.how = "determine_side" -> e.obs = tw
+                                 [] e.how = "signed_triangle_area" -> (tw % 2 = 0 => 2 * e.obs = tw) /\ 2 * e.obs - tw \in -1 .. 1
+                                 [] e.how = "triangle_area" -> (at % 2 = 0 => 2 * e.obs = at) /\ 2 * e.obs - at \in -1 .. 1)
       \* preconditions of the constructive records
       [] e.op = "v_refract" -> Norm2(e.i) = F1 /\ Norm2(e.n) = F1 /\ FLe(F0, e.rootk)
                                /\ (FLe(F0, RefractK(e.i, e.n, e.eta)) => FSq(e.rootk) = RefractK(e.i, e.n, e.eta))
@@ -79,6 +86,7 @@ VDist2 == Step("v_dist2")
 VReflect == Step("v_reflect")
 VCross == Step("v_cross")
 VSide == Step("v_side")
+VSideI == Step("v_side_i")
 VHomog == Step("v_homog")
 VFace == Step("v_face")
 VPred == Step("v_pred")
@@ -89,7 +97,7 @@ VMag == Step("v_mag")
 VNorm == Step("v_norm")
 VAngle == Step("v_angle")
 VAngleF == Step("v_angle_f")
-Next == VAngleF \/ VDot \/ VMag2 \/ VDist2 \/ VReflect \/ VCross \/ VSide \/ VHomog \/ VFace \/ VPred \/ VRefract \/ VTry \/ VSlerp
+Next == VAngleF \/ VSideI \/ VDot \/ VMag2 \/ VDist2 \/ VReflect \/ VCross \/ VSide \/ VHomog \/ VFace \/ VPred \/ VRefract \/ VTry \/ VSlerp
         \/ VMag \/ VNorm \/ VAngle
 Accepted == IF TLCGet("stats").diameter - 1 = Len(Rec) THEN TRUE
             ELSE PrintT(ToJson([tag |-> "REJECTED_AT", l |-> TLCGet("stats").diameter])) /\ FALSE
